@@ -125,10 +125,50 @@ def build(prop, info):
         # audit (cached on the hash of the property's .olean files)
         if res['proof_ok']:
             res['audit'] = audit(prop)
+        if prop in SOURCE_TIE_USERS:
+            info['source_tie'] = source_tie()
         return res
     finally:
         fcntl.flock(lock, fcntl.LOCK_UN)
         lock.close()
+
+
+SOURCE_TIE_USERS = {'C11', 'C04', 'C05', 'C02', 'C16'}      # properties whose theorems rest on the model of the integer codec
+
+
+def source_tie():
+    """Second tie (DESIGN 3.5): tools/py2lean.py translates the source text of the integer codec into Lean
+    (Generated/SrcInt.lean); HpackVerif.Props.Src proves that translation equal to the hand-written model for all
+    arguments. Informational: when the source is in a shape the translator or the proofs do not follow, the tie is
+    'unavailable' (never an alarm; the correspondence remains the deciding tie and the streams get a larger budget)."""
+    out = {'held': False}
+    t0 = time.time()
+    rc, txt = sh([runner.python_exe(), os.path.join(ROOT, 'tools', 'py2lean.py')], env=dict(os.environ, HPACK_REPO=runner.repo_dir()))
+    try:
+        rep = json.loads(txt.strip().splitlines()[-1])
+    except Exception:
+        rep = {'available': False, 'reason': 'py2lean.py failed: ' + txt[-200:]}
+    out['translator'] = rep
+    if not rep.get('available'):
+        out['status'] = 'unavailable: the translator does not cover this source (%s)' % rep.get('reason', '?')
+        return out
+    rc, txt = sh(['lake', 'build', 'HpackVerif.Props.Src'], cwd=LEAN, timeout=1800)
+    if rc != 0:
+        errs = [l for l in txt.splitlines() if l.startswith('error:') or ': error:' in l]
+        out['status'] = 'unavailable: the translated source is not proved equal to the model (%s)' % '; '.join(e[:160] for e in errs[:2])
+        return out
+    rc, txt = sh(['lake', 'env', 'lean', 'AuditSrc.lean'], cwd=LEAN, timeout=600)
+    thms = {}
+    for l in txt.splitlines():
+        m = re.match(r'.*AUDIT (\S+) \| ?(.*)$', l)
+        if m and not re.search(r'\._|\.(eq_\d+|match_\d+|proof_\d+)$', m.group(1)):
+            thms[m.group(1)] = m.group(2).split()
+    out['theorems'] = thms
+    bad = [k for k, v in thms.items() if not set(v) <= ALLOWED_AXIOMS]
+    out['held'] = bool(thms) and not bad and rc == 0
+    out['status'] = 'held: translation of the source text proved equal to the model' if out['held'] else 'unavailable: audit of Props.Src failed'
+    out['wall_s'] = round(time.time() - t0, 2)
+    return out
 
 
 def audit(prop):
@@ -230,6 +270,7 @@ def streams_for(prop, seed, tier, boost=1):
         add('henc-after-rejects', mixed)
         add('huff-large', genmod.huff_large_stream(full=T))
         add('huff-copies', genmod.huff_copy_stream(G('hc')))
+        add('henc-shared-buffer', genmod.henc_shared_stream(G('hsb'), n=60 * k))
         add('copies', genmod.copy_stream(G('cp')))
     elif prop == 'C13':
         add('hdec', G('hdec').hdec_stream(n_random=400 * k))
@@ -432,6 +473,9 @@ def streams_for(prop, seed, tier, boost=1):
         add('modes-extra', ops, {'pairs': pairs})
         ops, groups = genmod.dict_dupkey_stream()
         add('dict-and-generators', ops, {'groups': groups})
+        add('dict-and-generators-debuglog', genmod.with_debug_log(ops), {'groups': groups})
+        ops, groups = G('apilog').api_stream(n=25 * k)
+        add('api-debuglog', genmod.with_debug_log(ops), {'groups': groups})
         ops, pairs = genmod.utf8_tail_stream()
         add('utf8-tails', ops, {'pairs': pairs})
         ops, groups = genmod.both_sensitivities_stream(G('bs'), n=12 * k)
@@ -751,9 +795,10 @@ def main():
     if info['translate']['missing']:
         broken.append({'what': 'translator', 'detail': info['translate']['missing']})
     drift = drift_report(info.get('pins', {}))
-    boost = 3 if (drift['changed'] or broken) else 1
-    # ---------------- streams: correspondence + judge
-    streams = streams_for(prop, seed, tier, boost=1)
+    src_lost = 'source_tie' in info and not info['source_tie'].get('held')
+    boost = 3 if (drift['changed'] or broken or src_lost) else 1
+    # ---------------- streams: correspondence + judge (a larger budget when the modelled functions were rewritten)
+    streams = streams_for(prop, seed, tier, boost=2 if (drift['changed'] or src_lost) else 1)
     if tier == 'thorough':
         # further shards of the random streams with independent seeds (the catalogues are deterministic: keep one copy)
         base_names = {n for n, _, _ in streams}
@@ -891,6 +936,7 @@ def main():
             'trusted_base': [
                 'Lean 4 kernel (lake build); axioms used by the property theorems: ' + ', '.join(sorted({x for v in list(thms.values()) + list(shared.values()) for x in v})),
                 'tools/translate.py dumps the run-time tables/constants of the working tree into lean/HpackVerif/Generated (witnesses untrusted)',
+                'tools/py2lean.py + lean/HpackVerif/Src/Py.lean (source text of the integer codec -> Lean; Props.Src proves it equal to the model): ' + (info.get('source_tie') or {}).get('status', 'not used by this property'),
                 'hand-written L2 model lean/HpackVerif/Impl/* tied to the code by the correspondence streams of this run (%d operations, %d disagreements)' % (stats['ops'], len(disag)),
                 'L0 reading of RFC 7541 (lean/HpackVerif/RFC/*) and frozen Appendix A/B tables',
                 'CPython semantics of int/bytes/deque/dict as modelled (DESIGN.md 5.2)',
@@ -911,6 +957,7 @@ def main():
             'broken': broken,
             'search': searched,
             'drift': drift,
+            'source_tie': info.get('source_tie'),
             'translate': info.get('translate'),
             'leanchecker': info.get('leanchecker'),
             'verdict': verdict,
